@@ -122,6 +122,7 @@ impl Prop for C16 {
             "stb_with_mav_other_controller_unread",
             "plain_488_device_stb",
             "plain_488_mss_from_esb_only",
+            "response_buffer_exhausted_at_terminator",
         ];
         v.into_iter().map(String::from).collect()
     }
@@ -223,12 +224,22 @@ impl Prop for C16 {
             if msg.units.is_empty() {
                 continue;
             }
-            let s = SendStep {
+            let mut s = SendStep {
                 ctl,
                 fmt: FmtCfg::Vec,
                 msg,
                 corrupt: vec![],
             };
+            if g.rng.chance(1, 8) {
+                let p = predict(&root, &shadow, &s, Reading::Condition);
+                if let Some(o) = &p.out {
+                    if !o.is_empty() && o.len() < 190 {
+                        let len = o.len() as i64;
+                        let cap = (len + *g.rng.pick(&[-1i64, -1, -2, 0, 1, -len / 2])).max(0) as usize;
+                        s.fmt = FmtCfg::Array { cap };
+                    }
+                }
+            }
             advance_shadow(&mut shadow, &root, &s);
             t.steps.push(Step::Send(s));
         }
@@ -426,6 +437,12 @@ impl StepHandler for H16 {
             }
         }
         if let Err(e) = &o.result {
+            if e.code == -225 && matches!(s.fmt, FmtCfg::Array { .. }) {
+                stats.fault("F5_capacity");
+                if pred.fail_unit.is_none() {
+                    stats.probe("response_buffer_exhausted_at_terminator");
+                }
+            }
             if e.code == -222 {
                 stats.probe("ese_out_of_range");
             }
